@@ -124,6 +124,7 @@ TargetOOD(t) == LET segs == Split(PathOfRef(t), SLASH) IN
                 \/ IsPrefixOf(<<SLASH, SLASH>>, t)
                 \/ \E i \in 1..Len(segs) : segs[i] \in {<<DOT>>, <<DOT, DOT>>}
                 \/ (~Contains(t, <<COLON, SLASH, SLASH>>) /\ COLON \in SeqToSet(segs[1]))
+                \/ (~Contains(t, <<COLON, SLASH, SLASH>>) /\ HasDouble(PathOfRef(t)))    \* urljoin drops empty segments
 \* percent-escapes are an encoding detail the documentation does not fix: URLs are compared decoded
 Unq(u) == T!Utf8Dec(T!PctDecode(T!Utf8Enc(u)))
 
